@@ -217,6 +217,20 @@ CLAIMED = {
         note="Trusted: TLC; the MRO table of the fixed class family in Adaptation.tla matches the generated Python "
              "classes; factories' success depends only on their position in the chain.",
         design="4/C17"),
+    "C19": dict(
+        technique=TLA + "every operation of Faults.tla takes a fault parameter (callback site, occurrence, exception "
+                  "class); FaultsMC lets TLC decide the two laws (deciding callback => no effect + exception; change "
+                  "handler => complete + all other handlers) for every operation x site x occurrence; in conformance "
+                  "counting fault injectors sit in every user callback of a real object and every step of seeded "
+                  "histories - which continue after each fault - is judged by TLC",
+        text="600k (state, operation, fault) combinations model-checked; 27k recorded steps (55% faulted) over 10 "
+             "operations, 11 callback sites (validator, _name_default, property getter/setter, cached getter in a read "
+             "and inside a dependency notification, List/Set item validator at its k-th item, adapter factory k, "
+             "static/dynamic/observe handlers) x 4 exception classes, with the cached property and the notification "
+             "switch probed after every step.",
+        note="Trusted: TLC; default notification exception handlers; trait_set with several attributes is a series of "
+             "operations (only single-attribute quiet sets are faulted); Dict item validators not faulted.",
+        design="4/C19"),
     "C20": dict(
         technique=TLA + "SyncTrait.tla models the propagation operationally (per-object lock table, partner loop in "
                   "registration order, recursive handler runs); SyncTraitMC checks convergence to the declarative closure, "
